@@ -1689,7 +1689,7 @@ def _c08_harnesses(prop, tier):
                     b += "    let res = with_watchdog(move || std::thread::Builder::new().name(\"caller\".into()).spawn(run).unwrap().join().unwrap());\n"
                 else:
                     b += "    let res = with_watchdog(move || std::thread::spawn(run).join().unwrap());\n"
-                b += "    assert!(res.is_some(), \"C08: the macro did not return within 60 s\");\n"
+                b += "    assert!(res.is_some(), \"C08: the macro did not return within 25 s\");\n"
                 b += "    if let Some(Err(m)) = res { panic!(\"{}\", m); }\n"
                 hn = "%s_threads_%s_%s_%s" % (prop.lower(), mac, pname(ds), ctx)
                 out.append(Harness(hn, harness_fn(hn, b), prog, note="profile %s, caller thread %s" % (ds, ctx)))
